@@ -390,16 +390,30 @@ func (c *Ctx) c19Rules() {
 		// the block is reached from two edges: (MinLength>0 && ln<MinLength) or (MaxLength>0 && ln>MaxLength)
 		b := call.Block()
 		okMin, okMax := false, false
+		okAll := true
 		for _, p := range b.Preds {
+			edgeOK := false
 			for _, f := range FactsAtEdge(p, b) {
 				rel := f.Rel()
 				if rel.Op == token.LSS && fieldLoadName(rel.Y) == "MinLength" && StrLenValue(rel.X) != nil {
-					okMin = true
+					okMin, edgeOK = true, true
 				}
 				if rel.Op == token.GTR && fieldLoadName(rel.Y) == "MaxLength" && StrLenValue(rel.X) != nil {
-					okMax = true
+					okMax, edgeOK = true, true
+				}
+				// the "is the bound set" guard compares with zero
+				if fn := fieldLoadName(rel.X); (fn == "MinLength" || fn == "MaxLength") && rel.Op != token.ILLEGAL {
+					if k, isC := ConstInt(rel.Y); isC && !(k == 0 && (rel.Op == token.GTR || rel.Op == token.NEQ)) {
+						okAll = false
+					}
 				}
 			}
+			if !edgeOK {
+				okAll = false // an edge reports the length error without a violated bound
+			}
+		}
+		if !okAll {
+			okMin = false
 		}
 		r.Check(okMin && okMax, "C19.rules", name, "lengthErr iff len<Min || len>Max", posf(c, call), "length bounds are strict comparisons with MinLength / MaxLength", "length error is not reported exactly under len<MinLength (when set) or len>MaxLength (when set)")
 	}
